@@ -479,6 +479,18 @@ func ggOverwriteValues(f *ggField) []uint64 {
 	default:
 		cand = append(cand, 3<<18, 3<<22)
 	}
+	// counts and lengths that wrap around when multiplied by an element width: the
+	// product is a small negative number (a relative seek backwards, a negative
+	// slice bound) or a small positive one
+	switch f.Kind {
+	case "arrcount", "dim", "strlen", "elemstrlen", "keylen", "tnamelen", "ntensors", "nkv":
+		for _, w := range []uint64{1, 2, 4, 8, 16} {
+			for _, j := range []uint64{1, 2, 3, 4, 5, 8, 16, 32} {
+				cand = append(cand, (^uint64(0))/w+1-j) // (2^64 - j*w) / w
+			}
+			cand = append(cand, (^uint64(0))/w+2) // wraps to a small positive product
+		}
+	}
 	switch f.Kind {
 	case "valtype", "arrtype":
 		for t := uint64(0); t <= 13; t++ {
